@@ -421,8 +421,31 @@ func genC06Rest(c *Ctx, leaves []string, mv func() (int, int)) {
 		c06Pkt(c, t.String(), genVal(c, t, true).String(), m, v, tr)
 	}
 
+	// I. long non-ASCII strings: the VarInt prefix counts UTF-8 BYTES (the protocol's 32767 limit is in characters,
+	// up to 3 bytes each, and is not enforced by the library): byte lengths around 32767 and up to 3*32767
+	cjk, e2 := "e4b8ad", "c3a9"
+	longs := []string{
+		"r10922x" + cjk + "+61",    // 32767 bytes
+		"r10922x" + cjk + "+" + e2, // 32768 bytes, 10923 characters
+		"r16384x" + e2,             // 32768 bytes, 16384 characters
+		"r13333x" + cjk + "+61",    // 40000 bytes
+		"r32767x" + cjk,            // 98301 bytes = 3*32767: 32767 characters, the longest legal String
+		"r16383x" + e2 + "+61",     // 32767 bytes
+	}
+	for i, l := range longs {
+		m, v := mv()
+		c06RT(c, "string", l, m, v, c.trail())
+		c06RT(c, "option(string)", "("+l+")", (m+1)%4, v, nil)
+		c06RT(c, "tuple(varint,string,bool)", "(0000012c,"+l+",1)", (m+2)%4, v, c.trail())
+		if i%2 == 0 {
+			c06RT(c, "ary:varint(string)", "(6869,"+l+","+longs[(i+1)%len(longs)]+")", (m+3)%4, v, nil)
+			c06Pkt(c, "tuple(string,varint)", "("+l+",00000001)", m, v, nil)
+			c06RT(c, "bytearray", l, m, v, nil)
+		}
+	}
 	// H. NBTField
 	for _, n := range nbtCases {
 		c06NBT(c, n)
 	}
+	genC06NBT(c)
 }
